@@ -35,6 +35,7 @@ const (
 	vpItNext             // Iterator.Next: before loading the successor
 	vpItHelp             // Iterator.Next: current node marked, before helping
 	vpItRefresh          // Iterator.Refresh
+	vpAbR6               // Release: try-lock released, before re-checking the queue
 )
 
 // Verification yield points (see verif_on.go). Without the "verif" build tag
